@@ -1207,7 +1207,8 @@ mod misuse {
     }
 
     pub fn environments() -> Vec<Vec<(usize, usize)>> {
-        let lens: Vec<usize> = { let mut l = vec![0usize, less(), n() + 1, twice()]; l.retain(|x| *x != n()); l.sort(); l.dedup(); l };
+        // every absolute small length as well (a one-element output is what a 'constant' shortcut would broadcast; wave w)
+        let lens: Vec<usize> = { let mut l = vec![0usize, 1, 2, less(), n() + 1, twice()]; l.retain(|x| *x != n()); l.sort(); l.dedup(); l };
         let mut v: Vec<Vec<(usize, usize)>> = vec![vec![]];
         for s in 0..6 {
             for &l in &lens {
